@@ -55,6 +55,9 @@ type Node struct {
 	Annotations  map[string]string
 	// TwinOf: this node has the same bytes as node TwinOf but another media type (-1 if none).
 	TwinOf int
+	// SuccTitles (only with Options.LayerTitles): parallel to Succ for image/docker manifests, the
+	// org.opencontainers.image.title annotation written on that successor entry ("" = none).
+	SuccTitles []string
 }
 
 func (n *Node) IsManifest() bool {
@@ -82,6 +85,9 @@ type Options struct {
 	Annotations        bool
 	// BlobSize bounds for generated blobs (0..MaxBlob bytes)
 	MaxBlob int
+	// LayerTitles: when non-empty, about a third of the layer entries of image/docker manifests
+	// carry a title annotation drawn from this list (no extra PRNG draws when empty).
+	LayerTitles []string
 }
 
 func DefaultOptions() Options {
@@ -224,6 +230,21 @@ func Random(r *common.Rand, o Options) *Graph {
 			}
 			nl := r.Intn(4)
 			m.Layers = []ocispec.Descriptor{}
+			for len(o.LayerTitles) > 0 && len(nd.SuccTitles) < len(nd.Succ) {
+				nd.SuccTitles = append(nd.SuccTitles, "")
+			}
+			layerDesc := func(l int) ocispec.Descriptor {
+				d := g.Nodes[l].Desc
+				if len(o.LayerTitles) > 0 {
+					title := ""
+					if r.Chance(1, 3) {
+						title = common.Pick(r, o.LayerTitles)
+						d.Annotations = map[string]string{ocispec.AnnotationTitle: title}
+					}
+					nd.SuccTitles = append(nd.SuccTitles, title)
+				}
+				return d
+			}
 			for i := 0; i < nl; i++ {
 				var l int
 				if len(foreign) > 0 && r.Chance(1, 4) {
@@ -231,10 +252,10 @@ func Random(r *common.Rand, o Options) *Graph {
 				} else {
 					l = common.Pick(r, blobs)
 				}
-				m.Layers = append(m.Layers, g.Nodes[l].Desc)
+				m.Layers = append(m.Layers, layerDesc(l))
 				nd.Succ = append(nd.Succ, l)
 				if r.Chance(1, 6) { // same blob twice
-					m.Layers = append(m.Layers, g.Nodes[l].Desc)
+					m.Layers = append(m.Layers, layerDesc(l))
 					nd.Succ = append(nd.Succ, l)
 				}
 			}
